@@ -1487,3 +1487,123 @@ TT("C16", "twin-frac-digits-padded", [
     dt = datetime.fromisoformat(seconds).replace(tzinfo=timezone.utc)'''),
     (P2T, "dt.microsecond * 10**3", 'int(digits.ljust(6, "0")) * 10**3')],
    "fraction digits padded to six places before int()")
+
+# ===================================================== wave c (session 3)
+_ANC_OLD = '''    # group the child events using async information
+    event_groups = group_events_using_async_information(
+        child_events, event_type_to_group_map
+    )
+    if async_flag:
+        event_groups = sequence_groups_of_otel_events_asynchronously(
+            event_groups
+        )
+    else:
+        event_groups = order_groups_by_start_timestamp(event_groups)'''
+M("C08", "async-arm-ungrouped", SEQ, _ANC_OLD,
+  '''    if async_flag:
+        event_groups = sequence_groups_of_otel_events_asynchronously(
+            [[child_event] for child_event in child_events]
+        )
+    else:
+        event_groups = order_groups_by_start_timestamp(
+            group_events_using_async_information(
+                child_events, event_type_to_group_map
+            )
+        )''', "R8.5",
+  "prior-information grouping only on the synchronous arm (seed C08-c)")
+T("C08", "twin-arms-inline-groups", SEQ, _ANC_OLD,
+  '''    if not async_flag:
+        event_groups = order_groups_by_start_timestamp(
+            group_events_using_async_information(
+                child_events, event_type_to_group_map
+            )
+        )
+    else:
+        grouped = group_events_using_async_information(
+            child_events, event_type_to_group_map
+        )
+        event_groups = sequence_groups_of_otel_events_asynchronously(grouped)''',
+  "same computation, arms swapped and grouping inlined per arm")
+M("C08", "outer-key-last", SEQ, "key=lambda x: x[0].start_timestamp,",
+  "key=lambda x: x[-1].start_timestamp,", "R8.5",
+  "groups ordered by their latest-starting member")
+M("C08", "rename-skips-parents", SEQ,
+  "    if otel_event.child_event_ids is None:\n        return",
+  "    if otel_event.child_event_ids is not None:\n        return", "R8.6",
+  "rename returns early for every span that has children")
+M("C08", "group-drops-children", SEQ, "    if not events:\n        return []",
+  "    if events:\n        return []", "R8.8",
+  "grouping returns nothing whenever there are children")
+T("C08", "twin-guard-clause-rename", SEQ,
+  '''        if event.event_type in event_types_map_information:
+            update_event_type_based_on_children(
+                event, otel_events_job,
+                event_types_map_information[event.event_type]
+            )''',
+  '''        if event.event_type not in event_types_map_information:
+            continue
+        info = event_types_map_information[event.event_type]
+        update_event_type_based_on_children(event, otel_events_job, info)''',
+  "guard clause + temporary instead of nested if")
+
+M("C05", "rotate-misses-index-list", WALK,
+  "        self._path_indexes = [self._path_indexes[-1]] + self._path_indexes[:-1]\n",
+  "", "R5.10", "one per-path list no longer rotates with the others (seed C05-c)")
+TT("C05", "twin-rotate-helper", [
+    (WALK, '''        self.merge_nodes = [self.merge_nodes[-1]] + self.merge_nodes[:-1]''',
+     '''        self.merge_nodes = self.merge_nodes[-1:] + self.merge_nodes[:-1]'''),
+    (WALK, '''        self._path_indexes = [self._path_indexes[-1]] + self._path_indexes[:-1]''',
+     '''        self._path_indexes.insert(0, self._path_indexes.pop())''')],
+   "other spellings of the same rotation")
+
+M("C13", "rewind-after-partial-lines", JDS,
+  "        except json.JSONDecodeError:\n            pass",
+  "        except json.JSONDecodeError:\n            file_io.seek(0)", "R13.7",
+  "fallback re-reads documents that were already yielded (seed C13-c)")
+
+_LOOKUP_OLD = '''        existing_event_ids = self.get_event_ids_existing_in_db(
+            event_id_duplicates.keys()
+        )'''
+_LOOKUP_NEW = '''        existing_event_ids: set[str] = set()
+        if len(filtered_nodes) == len(self.node_models_to_save):
+            existing_event_ids = self.get_event_ids_existing_in_db(
+                event_id_duplicates.keys()
+            )'''
+M("C10", "lookup-only-without-batch-dups", SQL, _LOOKUP_OLD, _LOOKUP_NEW,
+  "R10.6", "stored ids not looked up when the batch has its own duplicates")
+M("C15", "lookup-only-without-batch-dups", SQL, _LOOKUP_OLD, _LOOKUP_NEW,
+  "R15.7", "re-ingest of files that repeat a span fails (seed C15-c)")
+M("C10", "link-guard-is-not-none", SQL,
+  "        if otel_event.parent_event_id:\n",
+  "        if otel_event.parent_event_id is not None:\n", "R10.7",
+  "link queued for a span that is stored as a root")
+M("C11", "link-guard-is-not-none", SQL,
+  "        if otel_event.parent_event_id:\n",
+  "        if otel_event.parent_event_id is not None:\n", "R11.9",
+  "phantom parent '' makes cleaning delete a well-formed trace (seed C11-c)")
+TT("C11", "twin-both-not-none", [
+    (SQL, "        if otel_event.parent_event_id:\n",
+     "        if otel_event.parent_event_id is not None:\n"),
+    (SQL, "parent_event_id=otel_event.parent_event_id or None,",
+     "parent_event_id=otel_event.parent_event_id,")],
+   "no normalisation on either side: record and link agree")
+
+M("C14", "mandatory-by-value", SIM,
+  '''    if not mandatory_fields.issubset(pv_dict.keys()):
+        missing_fields = mandatory_fields - pv_dict.keys()
+        raise ValueError(''',
+  '''    missing_fields = {
+        field for field in mandatory_fields if not pv_dict.get(field)
+    }
+    if missing_fields:
+        raise ValueError(''', "R14.2",
+  "loader rejects records whose mandatory value is empty (seed C14-c)")
+T("C14", "twin-mandatory-by-key-loop", SIM,
+  '''    if not mandatory_fields.issubset(pv_dict.keys()):
+        missing_fields = mandatory_fields - pv_dict.keys()
+        raise ValueError(''',
+  '''    missing_fields = {
+        field for field in mandatory_fields if field not in pv_dict
+    }
+    if missing_fields:
+        raise ValueError(''', "key-presence test written as a comprehension")
